@@ -404,8 +404,11 @@ def finish(ctx):
         "broken": ctx.broken,
         "notes": ctx.notes,
     }
-    (VERIF / "evidence").mkdir(exist_ok=True)
-    (VERIF / "evidence" / f"{ctx.pid}.json").write_text(
+    # evidence of a run against a patched copy of the repository (seed trials) must never replace the
+    # committed evidence of the unchanged tree
+    ev_dir = Path(os.environ.get("VERIF_EVIDENCE_DIR") or (VERIF / "evidence"))
+    ev_dir.mkdir(parents=True, exist_ok=True)
+    (ev_dir / f"{ctx.pid}.json").write_text(
         json.dumps(ev, indent=1, ensure_ascii=False, default=str), encoding="utf-8"
     )
     for l in lines:
